@@ -18,6 +18,10 @@ type Spec struct {
 	GOpts *GenumOpts `json:"genum_opts,omitempty"`
 	Err   *ErrSpec   `json:"gerror,omitempty"`
 	Sort  *SortSpec  `json:"gsort,omitempty"`
+	// Parts: for Tool "multi" — several generator invocations (each with its own definition file and
+	// //go:generate line, each writing its own output file) inside ONE package
+	Parts []*Spec `json:"parts,omitempty"`
+	Label string  `json:"label,omitempty"`
 }
 
 // GenumOpts are genum's documented switches.
@@ -51,6 +55,9 @@ type EnumSpec struct {
 	Traits     []TraitCol `json:"traits,omitempty"`
 	Lines      []EnumLine `json:"lines"`
 	Label      string     `json:"label,omitempty"` // name of the catalogue entry
+	// Imports, when given, is the import list of the definition file in source order (alias ""
+	// = plain import); otherwise the imports follow from the trait kinds
+	Imports [][2]string `json:"imports,omitempty"` // alias, path
 }
 
 // ErrField is a field of a gerror extension struct.
@@ -102,7 +109,7 @@ var kinds = map[string]kindInfo{
 	"trune": {"Alias_rune", true, false}, "tbool": {"Bool", false, false},
 	"tfloat32": {"Float32", true, false}, "tfloat64": {"Float64", true, false},
 	"tstring": {"", true, false}, "named_int": {"", true, false}, "duration": {"", true, false},
-	"reflect_kind": {"", true, false}, "dot_duration": {"", true, false}, "other_enum": {"", true, true}, "other_enum2": {"", true, true},
+	"tdur": {"", true, false}, "reflect_kind": {"", true, false}, "dot_duration": {"", true, false}, "other_enum": {"", true, true}, "other_enum2": {"", true, true},
 }
 
 var kindOrder = []string{"ustring", "uint", "urune", "ubool", "ufloat", "ucomplex", "tstringb", "tint64",
@@ -384,6 +391,24 @@ func genumArgs(e *EnumSpec, o *GenumOpts) []string {
 	return args
 }
 
+// enumImports is the import list (alias, path) of the definition file, in source order.
+func enumImports(e *EnumSpec) [][2]string {
+	if len(e.Imports) > 0 {
+		return e.Imports
+	}
+	var out [][2]string
+	if hasKind(e, "duration") {
+		out = append(out, [2]string{"xtime", "time"})
+	}
+	if hasKind(e, "reflect_kind") {
+		out = append(out, [2]string{"", "reflect"})
+	}
+	if hasKind(e, "dot_duration") {
+		out = append(out, [2]string{".", "time"})
+	}
+	return out
+}
+
 // renderEnum returns the files of a genum package (name -> content); the definition file is
 // b_def.go so that helper enums (a_*.go) are generated first by `go generate`.
 func renderEnum(pkg string, e *EnumSpec, o *GenumOpts) map[string]string {
@@ -391,14 +416,12 @@ func renderEnum(pkg string, e *EnumSpec, o *GenumOpts) map[string]string {
 	var sb strings.Builder
 	fmt.Fprintf(&sb, "package %s\n\n", pkg)
 	var imps []string
-	if hasKind(e, "duration") {
-		imps = append(imps, "\txtime \"time\"")
-	}
-	if hasKind(e, "reflect_kind") {
-		imps = append(imps, "\t\"reflect\"")
-	}
-	if hasKind(e, "dot_duration") {
-		imps = append(imps, "\t. \"time\"")
+	for _, im := range enumImports(e) {
+		if im[0] == "" {
+			imps = append(imps, fmt.Sprintf("\t%q", im[1]))
+		} else {
+			imps = append(imps, fmt.Sprintf("\t%s %q", im[0], im[1]))
+		}
 	}
 	if len(imps) > 0 {
 		sb.WriteString("import (\n" + strings.Join(imps, "\n") + "\n)\n\n")
@@ -531,19 +554,35 @@ func renderErr(pkg string, s *ErrSpec) map[string]string {
 	}
 	needTime := false
 	for _, f := range s.Fields {
-		if strings.Contains(f.Type, "time.") {
+		if strings.Contains(strings.ReplaceAll(f.Type, "stdtime.", ""), "time.") {
 			needTime = true
 		}
 	}
 	if needTime {
 		sb.WriteString("\t\"time\"\n")
 	}
+	for _, f := range s.Fields {
+		if strings.Contains(f.Type, "stdtime.") {
+			sb.WriteString("\tstdtime \"time\"\n")
+			break
+		}
+	}
 	sb.WriteString("\n\t\"github.com/drshriveer/gtools/gerror\"\n)\n\n")
 	args := "--types=" + strings.Join(s.Types, ",")
 	if s.SkipConvert {
 		args += " --skipConvertGen"
 	}
-	fmt.Fprintf(&sb, "//go:generate gerror %s\n\n// Status is a local enum-like field type.\ntype Status int\n\nvar _ = gerror.NoStack\n\n", args)
+	fmt.Fprintf(&sb, "//go:generate gerror %s\n\n", args)
+	for _, f := range s.Fields {
+		if f.Type == "Status" {
+			sb.WriteString("// Status is a local enum-like field type.\ntype Status int\n\n")
+			break
+		}
+	}
+	if s.NotStruct || s.NoEmbed {
+		sb.WriteString("var _ = gerror.NoStack // keeps the import in use\n\n")
+	}
+
 	for _, t := range s.Types {
 		if s.NotStruct {
 			fmt.Fprintf(&sb, "// %s is not a struct.\ntype %s int\n\n", t, t)
@@ -675,7 +714,12 @@ func renderSort(pkg string, s *SortSpec) map[string]string {
 		sb.WriteString("import \"time\"\n\n")
 	}
 	fmt.Fprintf(&sb, "//go:generate gsort -types=%s\n\n", s.Type)
-	sb.WriteString("// Category has a String accessor.\ntype Category int\n\n// String names the category.\nfunc (c Category) String() string {\n\tif c == 0 {\n\t\treturn \"zero\"\n\t}\n\treturn \"other\"\n}\n\n")
+	for _, f := range s.Fields {
+		if f.Type == "Category" {
+			sb.WriteString("// Category has a String accessor.\ntype Category int\n\n// String names the category.\nfunc (c Category) String() string {\n\tif c == 0 {\n\t\treturn \"zero\"\n\t}\n\treturn \"other\"\n}\n\n")
+			break
+		}
+	}
 	if strings.HasPrefix(s.Label, "notstruct") {
 		fmt.Fprintf(&sb, "// %s is not a struct.\ntype %s []int\n", s.Type, s.Type)
 		return map[string]string{"b_def.go": sb.String()}
